@@ -221,6 +221,16 @@ func RunBetaScale(cfgc core.Config, scope core.Scope) *core.Result {
 								return false
 							}
 						}
+						// clear(c[i*ldc : i*ldc+n]) zero-fills too
+						if c, ok := y.(*ast.CallExpr); ok && len(c.Args) == 1 {
+							if id, ok := c.Fun.(*ast.Ident); ok && (id.Name == "clear" || id.Name == "zero") {
+								if tv, ok := info.Types[c.Args[0]]; ok {
+									if _, isSlice := tv.Type.Underlying().(*types.Slice); isSlice {
+										found = true
+									}
+								}
+							}
+						}
 						if as, ok := y.(*ast.AssignStmt); ok && as.Tok == token.ASSIGN && len(as.Lhs) == 1 && len(as.Rhs) == 1 && isElem(as.Lhs[0]) {
 							if tv, ok := info.Types[as.Rhs[0]]; ok && tv.Value != nil && isZeroConst(tv.Value) {
 								found = true
